@@ -150,6 +150,36 @@ func (f gateFile) SyncTo(n int64) (bool, error) {
 // log's fsync is held back by the file system. While A waits there, put B of a near item runs to completion; then the fsync
 // returns. The counter (in memory and persisted) must still cover what is held.
 func concPruneSync(o *Out, r *rand.Rand) {
+	// first, one goroutine only: what the database holds at the moment a put has committed its item and is about to commit its
+	// pruning batch (the named yield point inside prune) - what a reader sees then, and what a crash that keeps written data
+	// would leave: the usage figure on disk covers the bytes held at that moment too
+	{
+		db, err := pebble.Open("", &pebble.Options{FS: vfs.NewMem()})
+		if err != nil {
+			panic(err)
+		}
+		var node enode.ID
+		r.Read(node[:])
+		st, err := spebble.NewStorage(storage.PortalStorageConfig{StorageCapacityMB: 1, NodeId: node, NetworkName: "verif"}, db)
+		if err != nil {
+			panic(err)
+		}
+		var mids []storeObs
+		spebble.VerifYield = func(point string) {
+			if point == "prune.beforeSubtract" {
+				mids = append(mids, observe(db))
+			}
+		}
+		for i := 0; i < 400 && len(mids) < 3; i++ {
+			id := make([]byte, 32)
+			r.Read(id)
+			_ = st.Put(nil, id, genBytes(5000+r.Intn(30000), i))
+		}
+		spebble.VerifYield = nil
+		for k, m := range mids {
+			o.Case(fmt.Sprintf("concprune rep=%d phase=mid", 100+k), fmt.Sprintf("inside-pruning-put persisted=%d held=%d cap=1000000", m.persisted, m.held))
+		}
+	}
 	for rep := 0; rep < 2; rep++ {
 		var armed atomic.Bool
 		reached, release := make(chan struct{}), make(chan struct{})
@@ -204,6 +234,10 @@ func concPruneSync(o *Out, r *rand.Rand) {
 		select {
 		case <-reached:
 			aBlocked.Store(true)
+			// what a reader (or a crash that keeps what was written) sees at this very moment: A's item is committed, its pruning
+			// batch is not yet - the usage figure on disk covers what is held now as well
+			mid := observe(db)
+			o.Case(fmt.Sprintf("concprune rep=%d phase=mid", rep), fmt.Sprintf("a-in-prune-sync persisted=%d held=%d cap=1000000", mid.persisted, mid.held))
 			doneB := make(chan struct{})
 			go func() { _ = st.Put(nil, idB, genBytes(10000, 1001)); close(doneB) }()
 			select {
